@@ -366,12 +366,12 @@ Proof.
 Qed.
 
 Lemma add_expried_rec x k r l' : aget (store (fst (add_expried x k r))) r = Some l' ->
-  exists l, aget (store x) r = Some l /\ l_locked l' = l_locked l /\ l_expried l' = false.
+  exists l, aget (store x) r = Some l /\ l_locked l' = l_locked l /\ l_expried l' = false /\ (l_refc l <> 0 -> l_refc l' <> 0).
 Proof.
   intros H. destruct (NF_add_expried_after x k r) as [A _].
-  destruct (A r l') as (l1 & E1 & (_ & N1 & N2 & _)); [discriminate|exact H|].
+  destruct (A r l') as (l1 & E1 & (_ & N1 & N2 & N3)); [discriminate|exact H|].
   rewrite aget_store_updl, N.eqb_refl in E1. destruct (aget (store x) r) as [l|]; [|discriminate]. simpl in E1. inv E1.
-  exists l. split; [reflexivity|]. split; [exact N1|]. rewrite N2. reflexivity.
+  exists l. split; [reflexivity|]. split; [exact N1|]. split; [rewrite N2; reflexivity|exact N3].
 Qed.
 
 Lemma In_wheel_push_same w k r : In r (wheel_get (wheel_push w k r) k).
@@ -481,7 +481,7 @@ Proof.
     apply add_expried_stored in Hn. exact Hn. }
   destruct (aget (store x3) r) as [l3|] eqn:Er3; [|congruence].
   assert (E3' : aget (store (fst (add_expried x2 k r))) r = Some l3) by (rewrite E3; exact Er3).
-  destruct (add_expried_rec x2 k r l3 E3') as (l2 & E2 & L2 & X2).
+  destruct (add_expried_rec x2 k r l3 E3') as (l2 & E2 & L2 & X2 & _).
   assert (Hl2 : l_locked l2 = l_locked l1).
   { rewrite Ef, aget_store_updl, N.eqb_refl, E1 in E2. simpl in E2. inv E2. apply Hf. }
   apply TG_updl; [intros l0 Ha Hb; split; [exact Ha|exact Hb]|].
